@@ -263,3 +263,172 @@ def _state_writes_node(fn: ast.AST):
         if isinstance(n, ast.Call) and ast.unparse(n.func) in ("setattr", "object.__setattr__", "delattr") and n.args and ast.unparse(n.args[0]) in roots:
             out.append(n)
     return out
+
+
+# ---------------------------------------------------------------------------------------------- Hermitian flags
+def hermitian_flags(model: Model, R: RuleResult) -> int:
+    """Truth table of the `is_hermitian` flag each composed operator hands to LinearOperator.__init__, over all assignments of
+    the operands' flags, the caller's flag and every other (uninterpreted) condition.  Specification: Add -> a and b;
+    Mul -> a; Adjoint -> obj; Matmul -> the caller's flag only (a product of Hermitian operators is not Hermitian in general).
+    A wrong True takes the shortcuts rmv = mv, rmm = mm, .H = self."""
+    import itertools
+    specs = {
+        "AddLinearOperator": lambda v: v["a.is_hermitian"] and v["b.is_hermitian"],
+        "MulLinearOperator": lambda v: v["a.is_hermitian"],
+        "AdjointLinearOperator": lambda v: v["obj.is_hermitian"],
+        "MatmulLinearOperator": lambda v: v["is_hermitian"],
+    }
+    n = 0
+    from ..flow import function_defs
+    for cname, spec in specs.items():
+        cls = model.cls(LINOP, cname)
+        init = cls.find_method("__init__")
+        defs = function_defs(init.node)
+        sup = [c for c in own_nodes(init.node) if isinstance(c, ast.Call) and "__init__" in ast.unparse(c.func)]
+        flag = None
+        for c in sup:
+            for k in c.keywords:
+                if k.arg == "is_hermitian":
+                    flag = k.value
+        if flag is None:
+            raise AnalysisError("C11-HF: %s.__init__ does not pass is_hermitian= to LinearOperator.__init__" % cname)
+        P = init.params()
+        atoms: List[str] = []
+
+        def collect(e, depth=0, inside=frozenset()):
+            if isinstance(e, ast.Name) and len(defs.get(e.id, [])) >= 1 and depth < 6 and e.id not in inside:
+                for d in defs[e.id]:
+                    collect(d, depth + 1, inside | {e.id})
+                return
+            if isinstance(e, ast.BoolOp):
+                for v in e.values:
+                    collect(v, depth, inside)
+                return
+            if isinstance(e, ast.UnaryOp) and isinstance(e.op, ast.Not):
+                collect(e.operand, depth, inside)
+                return
+            a = ast.unparse(e)
+            if a not in atoms:
+                atoms.append(a)
+
+        def ev(e, val, depth=0, inside=frozenset()):
+            if isinstance(e, ast.Name) and len(defs.get(e.id, [])) >= 1 and depth < 6 and e.id not in inside:
+                # last definition wins (straight-line constructor); a parameter re-bound in terms of itself refers to the caller's value inside
+                return ev(defs[e.id][-1], val, depth + 1, inside | {e.id})
+            if isinstance(e, ast.BoolOp):
+                vs = [ev(v, val, depth, inside) for v in e.values]
+                return all(vs) if isinstance(e.op, ast.And) else any(vs)
+            if isinstance(e, ast.UnaryOp) and isinstance(e.op, ast.Not):
+                return not ev(e.operand, val, depth, inside)
+            if isinstance(e, ast.Constant) and isinstance(e.value, bool):
+                return e.value
+            return val[ast.unparse(e)]
+        collect(flag)
+        base = [a for a in ("a.is_hermitian", "b.is_hermitian", "obj.is_hermitian", "is_hermitian")]
+        allatoms = sorted(set(atoms) | {a for a in base if a.split(".")[0] in P or a in P})
+        bad = None
+        cnt = 0
+        for combo in itertools.product((False, True), repeat=len(allatoms)):
+            val = dict(zip(allatoms, combo))
+            for a in base:
+                val.setdefault(a, False)
+            cnt += 1
+            got = ev(flag, val)
+            want = spec(val)
+            if bool(got) != bool(want) and bad is None:
+                bad = (val, got, want)
+        n += 1
+        if bad is None:
+            R.ok(cls.fq, "%s: declared Hermitian <=> %s, for all %d assignments of %s" % (cname, {"AddLinearOperator": "both operands are", "MulLinearOperator": "the operand is",
+                                                                                          "AdjointLinearOperator": "the operand is", "MatmulLinearOperator": "the caller says so"}[cname], cnt, allatoms))
+        else:
+            val, got, want = bad
+            tv = {k: v for k, v in val.items() if k in allatoms}
+            R.bad(init, enclosing_stmt(flag), "%s is declared %sHermitian when %s (specification: %s): a wrongly Hermitian operator takes the shortcuts rmv = mv, rmm = mm, .H = self"
+                  % (cname, "" if got else "non-", tv, "Hermitian" if want else "not Hermitian"))
+    return n
+
+
+INPLACE_METHODS = {"mul_", "add_", "sub_", "div_", "neg_", "copy_", "zero_", "fill_", "addmm_", "addcmul_", "clamp_", "conj_physical_", "t_", "transpose_", "resize_"}
+
+
+def no_inplace_in_products(model: Model, R: RuleResult) -> int:
+    """A product must not modify in place a tensor it did not allocate itself: the value returned by an operand's product may alias
+    the caller's input (restriction / identity operators) or be shared by sub-expressions."""
+    n = 0
+    prod = {"_mv", "_mm", "_rmv", "_rmm", "mv", "mm", "rmv", "rmm", "_fullmatrix", "fullmatrix"}
+    for c in sorted(model.module(LINOP).classes.values(), key=lambda c: c.name):
+        for mn, fi in sorted(c.methods.items()):
+            if mn not in prod:
+                continue
+            n += 1
+            bad = None
+            params = set(fi.params())
+            from ..flow import function_defs
+            defs = function_defs(fi.node)
+
+            def foreign(name: str) -> bool:
+                if name in params:
+                    return True
+                for d in defs.get(name, []):
+                    if isinstance(d, ast.Call) and isinstance(d.func, ast.Attribute) and d.func.attr in prod:
+                        return True
+                    if isinstance(d, ast.Name) and d.id in params:
+                        return True
+                return False
+            for node in own_nodes(fi.node):
+                if isinstance(node, ast.AugAssign):
+                    root = node.target
+                    while isinstance(root, (ast.Subscript, ast.Attribute)):
+                        root = root.value
+                    if isinstance(root, ast.Name) and foreign(root.id):
+                        bad = node
+                if isinstance(node, ast.Call) and isinstance(node.func, ast.Attribute) and node.func.attr in INPLACE_METHODS:
+                    root = node.func.value
+                    while isinstance(root, (ast.Subscript, ast.Attribute)):
+                        root = root.value
+                    if isinstance(root, ast.Name) and foreign(root.id):
+                        bad = node
+                if isinstance(node, ast.Assign) and any(isinstance(t, ast.Subscript) and isinstance(t.value, ast.Name) and foreign(t.value.id) for t in node.targets):
+                    bad = node
+            if bad is None:
+                R.ok(fi.fq, "%s.%s updates nothing in place that it did not allocate" % (c.name, mn))
+            else:
+                R.bad(fi, enclosing_stmt(bad) if not isinstance(bad, ast.stmt) else bad, "%s.%s modifies in place a tensor obtained from its argument or from an operand's product: "
+                      "when that product returns (a view of) its input, the caller's vector and every sub-expression sharing it are overwritten" % (c.name, mn))
+    return n
+
+
+def scalar_validation(model: Model, R: RuleResult) -> int:
+    """MulLinearOperator._rmv multiplies by the same factor f as _mv, which is the adjoint only for real f: the scalars admitted by
+    __mul__ / __rmul__ must therefore be real (int, float) unless _rmv conjugates the factor."""
+    lin = model.cls(LINOP, "LinearOperator")
+    mul = lin.find_method("__mul__")
+    rm = lin.find_method("__rmul__")
+    mulop = model.cls(LINOP, "MulLinearOperator")
+    rmv = mulop.methods["_rmv"]
+    conj = any(isinstance(c, ast.Call) and (ast.unparse(c.func) in ("torch.conj", "np.conj") or (isinstance(c.func, ast.Attribute) and c.func.attr in ("conj", "conjugate")))
+               and "self.f" in ast.unparse(c) for c in ast.walk(rmv.node))
+    types = set()
+    for c in ast.walk(mul.node):
+        if isinstance(c, ast.Call) and ast.unparse(c.func) == "isinstance" and len(c.args) == 2 and ast.unparse(c.args[0]) == mul.params()[1]:
+            t = c.args[1]
+            for e in (t.elts if isinstance(t, ast.Tuple) else [t]):
+                types.add(ast.unparse(e))
+    raises = any(isinstance(r, ast.Raise) for r in own_nodes(mul.node))
+    n = 1
+    if types and types <= {"int", "float"} and raises:
+        R.ok(mul.fq, "__mul__ admits only real scalars %s (others raise TypeError): multiplying by the same f in _rmv is the adjoint" % sorted(types))
+    elif conj and raises:
+        R.ok(mul.fq, "__mul__ admits %s and MulLinearOperator._rmv conjugates the factor" % sorted(types))
+    else:
+        R.bad(mul, mul.node, "__mul__ admits scalars of type %s but MulLinearOperator._rmv multiplies by f itself (not conj(f)) and keeps the operand's Hermitian flag: "
+              "for a complex factor rmv / rmm / .H are not the adjoint" % sorted(types))
+    rets = [r for r in own_nodes(rm.node) if isinstance(r, ast.Return)]
+    if len(rets) == 1 and ast.unparse(rets[0].value) == "self.__mul__(%s)" % rm.params()[1]:
+        R.ok(rm.fq, "__rmul__ delegates to __mul__ (same validation)")
+        n += 1
+    else:
+        R.bad(rm, rm.node, "__rmul__ must delegate to __mul__ so that the same scalar validation applies")
+        n += 1
+    return n
